@@ -196,3 +196,5 @@ func TestVerifC07Flv(t *testing.T) {
 	}
 	vC07Drive(t, decs, helpers, fams, 800, 10000)
 }
+
+func FuzzVerifC07Flv(f *testing.F) { vC07FuzzTarget(f, TestVerifC07Flv) }
